@@ -5,6 +5,15 @@ here = os.path.dirname(os.path.dirname(os.path.abspath(__file__)))
 
 # id -> (technique, level text, level note, design ref)
 CHECKS = {
+    "C17": (
+        "Hypothesis-generated mappings, mapping pairs and Feature pairs; round-trip, view-invariance, reference-union and equality-vs-printing oracles",
+        "Five relations over arbitrary-Unicode mappings: values set as scalars/lists/tuples through Feature[...], .attributes[...] or update() are stored "
+        "as sequences; toggling always_return_list changes only the view of single-item lists, never stored data, printing or parsing; JSON text and a "
+        "database round trip are the identity incl. key order; merge_attributes equals the per-key sorted duplicate-free (numerically ordered) union "
+        "for dicts and Attributes under both switch settings without touching its arguments; ==, != and hash agree with printed-line equality.",
+        "always_return_list restored per case; numeric order only when all values are finite floats.",
+        "DESIGN.md section 4 C17",
+    ),
     "C16": (
         "exhaustive enumeration of small interval multisets x criteria sets + Hypothesis random lists and databases; greedy reference, independent union sweep, identity-based partition check",
         "Every start-ordered multiset of <= 3 (quick) / <= 4 (thorough) intervals over 8 positions is merged under 9 criteria sets and compared with "
